@@ -468,7 +468,7 @@ UD_FORMS = [(ks, io, ms, ss) for ks in (None, ('x',), ('y', 'x'), ('z',)) for io
             for ss in (None, 1)]
 
 
-@group('unpackdict', _exp_inputs([{}, {'x': 1}, {'y': 2}, {'x': 3, 'y': (1, 2)}, None], [None, 0, {'x': 1}], UD_FORMS,
+@group('unpackdict', _exp_inputs([{}, {'x': 1}, {'y': 2}, {'x': 3, 'y': (1, 2)}, None, {'x': 0, 'y': ''}, {'x': False, 'y': None}], [None, 0, {'x': 1}], UD_FORMS,
                                  6000, 10 ** 7))
 def chk_unpackdict(inp):
     hdr, j, body, (ks, io, ms, ss) = inp
